@@ -125,36 +125,6 @@ func runC17(c *Ctx) {
 			"the watch loop waits for an event before its first look at the file: a change made between the initial read (dials.Config / Blank.SetSource read the value first and start the watcher later) and the setup of the watches raises no event, so if it was the last change the view never converges to the file's final content")
 	}
 
-	// ---- refusal-reported: ReportNewValue may fail (a wrapping WatchArgs that cannot reverse-translate the value returns
-	// the error to the watcher); the content is then invalid and the error must reach ReportError (D38)
-	{
-		nrep := 0
-		for _, i := range allInstrs(loop) {
-			ci, ok := i.(*ssa.Call)
-			if !ok || calleeFullName(ci) != "("+modPath+".WatchArgs).ReportNewValue" {
-				continue
-			}
-			nrep++
-			okRep := false
-			for _, j := range allInstrs(loop) {
-				re, ok := j.(*ssa.Call)
-				if !ok || calleeFullName(re) != "("+modPath+".WatchArgs).ReportError" {
-					continue
-				}
-				if !derivesAny(re.Call.Args[len(re.Call.Args)-1], func(v ssa.Value) bool { return v == ssa.Value(ci) }, nil) {
-					continue
-				}
-				if knownNil(re.Block(), ci, false) {
-					okRep = true
-				}
-			}
-			c.check(okRep, "refusal-reported", name, ci.Pos(), "a value the WatchArgs refused (non-nil result of ReportNewValue) is handed to ReportError", "the result of ReportNewValue is dropped: when a wrapping WatchArgs refuses the value (the transforming source returns the reverse-translation error there) the view stays at the last good config but the error is never reported")
-		}
-		if nrep == 0 {
-			c.bad("refusal-reported", name, loop.Pos(), "the watch loop never reports a new value")
-		}
-	}
-
 	// ---- checksum-after-decode --------------------------------------------------------
 	rec := w.fn("sources/file", "Source.lastHMACNew")
 	if c.need(rec != nil, "sources/file.Source.lastHMACNew") {
@@ -413,24 +383,64 @@ func runC17(c *Ctx) {
 			newValue = e
 		}
 	}
-	okNew, okUnch, okErr := false, false, false
+	// the dispatch may be folded into a helper that is handed the value and the error of the re-read (one call
+	// site in the loop): the helper is then the dispatch frame, its
+	// parameters stand for the two results and returning stands for "the loop waits again"
+	dfn, dNew, dErr := loop, newValue, parseErr
+	dNextWait := isNextWait
 	for _, i := range allInstrs(loop) {
+		ci, ok := i.(*ssa.Call)
+		if !ok {
+			continue
+		}
+		h := staticCallee(ci)
+		if h == nil || len(h.Blocks) == 0 || c.W.pkgRelOfFn(h) != "sources/file" || len(callsToFn(loop, h)) != 1 {
+			continue
+		}
+		var pn, pe ssa.Value
+		for ai, a := range ci.Call.Args {
+			if ai >= len(h.Params) {
+				break
+			}
+			if a == newValue {
+				pn = h.Params[ai]
+			}
+			if a == parseErr {
+				pe = h.Params[ai]
+			}
+		}
+		if pn != nil && pe != nil {
+			hasReport := false
+			for _, j := range allInstrs(h) {
+				if isReportCall(j) {
+					hasReport = true
+				}
+			}
+			if hasReport {
+				dfn, dNew, dErr = h, pn, pe
+				dNextWait = isReturn
+				c.analysed(relName(h))
+			}
+		}
+	}
+	okNew, okUnch, okErr := false, false, false
+	for _, i := range allInstrs(dfn) {
 		ci, ok := i.(*ssa.Call)
 		if !ok {
 			continue
 		}
 		switch calleeFullName(ci) {
 		case "(" + modPath + ".WatchArgs).ReportNewValue":
-			if ci.Call.Args[1] == newValue && knownNil(ci.Block(), parseErr, true) {
+			if ci.Call.Args[1] == dNew && knownNil(ci.Block(), dErr, true) {
 				okNew = true
 			}
 		case "(" + modPath + ".WatchArgs).ReportError":
 			okErr = true
 		}
 	}
-	if a := eventArmOn(loop, "sources/file.unchangedCSumErr", parseErr); a != nil {
+	if a := eventArmOn(dfn, "sources/file.unchangedCSumErr", dErr); a != nil {
 		// nothing reported in that arm
-		if reachAvoidFromBlock(a.entry, isReportCall, isNextWait) == nil {
+		if reachAvoidFromBlock(a.entry, isReportCall, dNextWait) == nil {
 			okUnch = true
 		}
 	}
@@ -439,23 +449,53 @@ func runC17(c *Ctx) {
 	// default arm: every path from the last type-switch miss reaches ReportError before waiting
 	okDef := false
 	if okErr {
-		for _, b := range loop.Blocks {
+		for _, b := range dfn.Blocks {
 			n := 0
 			for _, ec := range condsDominating(b) {
 				if e, ok := ec.Cond.(*ssa.Extract); ok && !ec.Val && e.Index == 1 {
-					if ta, ok := e.Tuple.(*ssa.TypeAssert); ok && ta.X == parseErr {
+					if ta, ok := e.Tuple.(*ssa.TypeAssert); ok && ta.X == dErr {
 						n++
 					}
 				}
 			}
-			if n >= 2 && knownNil(b, parseErr, false) {
-				if reachAvoidFromBlock(b, isNextWait, isReportCall) == nil {
+			if n >= 2 && knownNil(b, dErr, false) {
+				if reachAvoidFromBlock(b, dNextWait, isReportCall) == nil {
 					okDef = true
 				}
 			}
 		}
 	}
 	c.check(okDef, "dispatch-total", name+"#other-errors", reread.Pos(), "every other error reaches ReportError before the loop waits again", "an unclassified read error can be dropped without ReportError")
+
+	// ---- refusal-reported: ReportNewValue may fail (a wrapping WatchArgs that cannot reverse-translate the value returns
+	// the error to the watcher); the content is then invalid and the error must reach ReportError (D38)
+	{
+		nrep := 0
+		for _, i := range allInstrs(dfn) {
+			ci, ok := i.(*ssa.Call)
+			if !ok || calleeFullName(ci) != "("+modPath+".WatchArgs).ReportNewValue" {
+				continue
+			}
+			nrep++
+			okRep := false
+			for _, j := range allInstrs(dfn) {
+				re, ok := j.(*ssa.Call)
+				if !ok || calleeFullName(re) != "("+modPath+".WatchArgs).ReportError" {
+					continue
+				}
+				if !derivesAny(re.Call.Args[len(re.Call.Args)-1], func(v ssa.Value) bool { return v == ssa.Value(ci) }, nil) {
+					continue
+				}
+				if knownNil(re.Block(), ci, false) {
+					okRep = true
+				}
+			}
+			c.check(okRep, "refusal-reported", name, ci.Pos(), "a value the WatchArgs refused (non-nil result of ReportNewValue) is handed to ReportError", "the result of ReportNewValue is dropped: when a wrapping WatchArgs refuses the value (the transforming source returns the reverse-translation error there) the view stays at the last good config but the error is never reported")
+		}
+		if nrep == 0 {
+			c.bad("refusal-reported", name, loop.Pos(), "the watch loop never reports a new value")
+		}
+	}
 
 	// ---- release -------------------------------------------------------------------------------------
 	want := map[string]bool{"(*sync.WaitGroup).Done": false, "os/signal.Stop": false, "(*github.com/fsnotify/fsnotify.Watcher).Close": false}
